@@ -200,8 +200,15 @@ const (
 func (h *c40) judge(kind, class string, pub ssh.PublicKey, data []byte, sig *ssh.Signature, want int, extra map[string]any) bool {
 	m := h.m
 	var err error
+	dSnap, bSnap, rSnap, fSnap := bytes.Clone(data), bytes.Clone(sig.Blob), bytes.Clone(sig.Rest), strings.Clone(sig.Format)
 	pv, st := mon.Panics(func() { err = pub.Verify(data, sig) })
 	m.Eval()
+	if !bytes.Equal(data, dSnap) || !bytes.Equal(sig.Blob, bSnap) || !bytes.Equal(sig.Rest, rSnap) || sig.Format != fSnap {
+		m.Violation("verify-modified-its-input:"+kind, map[string]any{"change": class, "data": mon.FullHex(dSnap), "sig_format": fSnap, "sig_blob": mon.FullHex(bSnap), "sig_rest": mon.FullHex(rSnap)})
+		copy(data, dSnap)
+		copy(sig.Blob, bSnap)
+		copy(sig.Rest, rSnap)
+	}
 	wit := func() map[string]any {
 		w := map[string]any{"key_kind": kind, "change": class, "public_key": mon.FullHex(pub.Marshal()), "data": mon.FullHex(data),
 			"sig_format": sig.Format, "sig_blob": mon.FullHex(sig.Blob), "sig_rest": mon.FullHex(sig.Rest)}
@@ -418,6 +425,7 @@ func (h *c40) verifyCase(i int64, r *rand.Rand) {
 		algo = rsaAlgos[(i/48)%3]
 	}
 
+	dataSnap := bytes.Clone(data)
 	var sig *ssh.Signature
 	source := ""
 	fromPackage := true
@@ -486,6 +494,10 @@ func (h *c40) verifyCase(i int64, r *rand.Rand) {
 				return
 			}
 		}
+	}
+	if !bytes.Equal(data, dataSnap) {
+		m.Violation("signer-modified-its-input:"+kind, map[string]any{"source": source, "data": mon.FullHex(dataSnap)})
+		data = dataSnap
 	}
 	if err != nil || sig == nil {
 		m.Violation("signing-failed:"+kind+":"+algo, map[string]any{"source": source, "error": fmt.Sprint(err)})
